@@ -640,32 +640,40 @@ class FunctionDefinition(TypedExpression):
         output_has_scope = bool(
             self.output and getattr(self.output, "has_scope", lambda: False)()
         )
-        output_multiline = False
         output_inline_preview: str | None = None
-        if self.output is not None:
-            output_inline_preview = self.output.rebuild(indent=base_indent, inline=True)
-            output_multiline = "\n" in output_inline_preview
 
-        auto_breaks_after_semicolon = 1 if output_has_scope else 0
-        if not auto_breaks_after_semicolon:
-            if (args_are_formals and output_multiline) or (
-                args_multiline and has_arguments
-            ):
-                auto_breaks_after_semicolon = 1
+        def inline_preview() -> str:
+            """Render the body inline at most once; nested functions repeat any extra render at every level."""
+            nonlocal output_inline_preview
+            if output_inline_preview is None:
+                assert self.output is not None
+                output_inline_preview = self.output.rebuild(
+                    indent=base_indent, inline=True
+                )
+            return output_inline_preview
 
-        breaks_after_semicolon = (
-            self.breaks_after_semicolon
-            if self.breaks_after_semicolon is not None
-            else auto_breaks_after_semicolon
-        )
+        if self.breaks_after_semicolon is not None:
+            breaks_after_semicolon = self.breaks_after_semicolon
+        else:
+            # The preview only matters when the layout is not recorded: skip it
+            # otherwise instead of rendering the whole body for nothing.
+            auto_breaks_after_semicolon = 1 if output_has_scope else 0
+            if not auto_breaks_after_semicolon:
+                if (args_multiline and has_arguments) or (
+                    args_are_formals
+                    and self.output is not None
+                    and "\n" in inline_preview()
+                ):
+                    auto_breaks_after_semicolon = 1
+            breaks_after_semicolon = auto_breaks_after_semicolon
         line_break = "\n" * breaks_after_semicolon
         output_inline = line_break == ""
         if not self.output:
             output_str = "{ }"
-        elif output_inline and output_inline_preview is not None:
+        elif output_inline:
             # Reuse the preview: rendering the body a second time doubles the
             # work at every nesting level of curried functions.
-            output_str = output_inline_preview
+            output_str = inline_preview()
         else:
             output_str = self.output.rebuild(indent=base_indent, inline=False)
         return line_break, output_str
